@@ -309,7 +309,7 @@ def run_engine(spec, eng, tier, seed, work, rep, known, cov):
             cov["extra"].setdefault(name, {})[k] = v
         # ---- oracle verdicts on the implementation
         seen_cls = set()
-        for f in meta["failures"]:
+        for f in (meta.get("failures") or []):
             cls = f["class"]
             if cls in seen_cls:
                 continue
@@ -369,7 +369,7 @@ def run_engine(spec, eng, tier, seed, work, rep, known, cov):
                                    "first_divergence_from_repaired_model": d[:3]}, no_input=not confirmed)
         else:
             cov["variant_matched"][name] = "none"
-            if any(f for f in meta["failures"] if not known_match(known, spec["id"], f["class"])):
+            if any(f for f in (meta.get("failures") or []) if not known_match(known, spec["id"], f["class"])):
                 continue  # already reported with a failing input
             first = d[0]["line"]
             small, ok = shrink_mismatch(binpath, eng["driver"], work, ops, cfg0, first)
